@@ -13,7 +13,7 @@ from . import printer as P
 KIND_PROFILES = {
     'mixed': [('request', 14), ('event', 14), ('request_new', 10), ('event_new', 10), ('mention', 10),
               ('destroy', 9), ('delete_id', 9), ('churn', 8), ('global', 5), ('bind', 6), ('sync', 2),
-              ('done', 2), ('bind_synth', 6), ('destroy_server', 5)],
+              ('done', 2), ('bind_synth', 6), ('destroy_server', 5), ('app_id', 4)],
     'churn': [('churn', 50), ('destroy', 10), ('delete_id', 10), ('request_new', 10), ('event_new', 8),
               ('bind', 5), ('global', 3), ('mention', 4)],
     'objects': [('request_new', 14), ('event_new', 22), ('destroy', 12), ('delete_id', 12), ('mention', 12),
